@@ -218,6 +218,51 @@ Theorem named_instance_in_axis_range : forall a rows k u0 d0 rest uk dk,
 Proof. exact instance_in_range. Qed.
 Print Assumptions named_instance_in_axis_range.
 
+(* 7b. An instance that does not mention an axis gets exactly the axis' fvar default as its
+   coordinate (so it is inside the range, by 7); and for a whole InstanceRecord over any
+   number of axes: every coordinate whose axis is omitted equals that axis' fvar default,
+   and every coordinate lies in its axis' [fvar min, fvar max] whenever the given design
+   values lie in the axes' design ranges. *)
+Theorem omitted_axis_coordinate_is_fvar_default : forall a,
+  let '(mn, df, mx) := fvar_axis a in fvar_instance_coord a None = df.
+Proof. intro a. reflexivity. Qed.
+Print Assumptions omitted_axis_coordinate_is_fvar_default.
+
+Definition axis_ok (a : axis) (loc : option Q) : Prop :=
+  exists rows k u0 d0 rest uk dk, valid_axis a rows k u0 d0 rest uk dk /\
+    match loc with Some d => d0 <= d /\ d <= lastq d0 (map snd rest) | None => True end.
+
+Theorem named_instance_record_in_range : forall axes locs,
+  Forall2 axis_ok axes locs ->
+  Forall2 (fun a z => let '(mn, df, mx) := fvar_axis a in (mn <= z <= mx)%Z)
+          axes (fvar_instance_record axes locs)
+  /\ Forall2 (fun al z => snd al = None -> let '(mn, df, mx) := fvar_axis (fst al) in z = df)
+             (combine axes locs) (fvar_instance_record axes locs).
+Proof.
+  intros axes locs H. unfold fvar_instance_record. induction H as [|a l axes locs Ha H IH].
+  - split; constructor.
+  - destruct IH as [IH1 IH2]. cbn [combine map fst snd]. split; constructor; try assumption.
+    + destruct Ha as (rows & k & u0 & d0 & rest & uk & dk & V & Hl).
+      exact (instance_in_range a rows k u0 d0 rest uk dk V l Hl).
+    + cbn [fst snd]. intro E. subst l. reflexivity.
+Qed.
+Print Assumptions named_instance_record_in_range.
+
+Example named_instance_record_nonvacuous :
+  exists a, mk_axis 100 400 900 [(900, 100); (100, 10); (400, 50); (500, 50); (700, 80)] 2 = Some a /\
+    Forall2 axis_ok [a; a] [None; Some 80].
+Proof.
+  eexists. split; [reflexivity|].
+  match goal with |- Forall2 axis_ok [?t; _] _ =>
+    assert (forall l, match l with Some d => 10 <= d /\ d <= 100 | None => True end -> axis_ok t l) as K end.
+  { intros l Hl. exists [(900, 100); (100, 10); (400, 50); (500, 50); (700, 80)], 2%nat, 100, 10,
+      [(400, 50); (500, 50); (700, 80); (900, 100)], 400, 50. split; [|exact Hl].
+    constructor; try reflexivity.
+    - cbn. repeat split; reflexivity.
+    - cbn. repeat split; discriminate. }
+  constructor; [apply K; exact I|]. constructor; [apply K; split; discriminate|constructor].
+Qed.
+
 (* 8. user -> design -> user is the identity on strictly increasing maps (everywhere, also
    outside the rows). *)
 Theorem map_reverse_roundtrip : forall (m : plm) (v : Q),
